@@ -37,19 +37,62 @@ func (c *vclock) Now() time.Time  { c.mu.Lock(); defer c.mu.Unlock(); return c.n
 func (c *vclock) set(t time.Time) { c.mu.Lock(); c.now = t; c.mu.Unlock() }
 
 type manualCollector struct {
-	mu     sync.Mutex
-	f      func(time.Time)
-	closed bool
-	closes int
+	mu      sync.Mutex
+	f       func(time.Time)
+	closed  bool
+	closes  int
+	wg      sync.WaitGroup // ticks in flight: Close waits for them, as the library's ticker collector does
+	closing atomic.Bool    // Close has been entered (the client's closed flag is already set by then)
 }
 
 func (m *manualCollector) Start(_ time.Duration, f func(time.Time)) error { m.f = f; return nil }
 func (m *manualCollector) Close() error {
+	m.closing.Store(true)
+	m.wg.Wait()
 	m.mu.Lock()
 	m.closed = true
 	m.closes++
 	m.mu.Unlock()
 	return nil
+}
+
+// gateAgent: the stock Agent behind the ClientAgent interface, with a gate in front of the client's
+// handler: when armed, the next event is held (it is "in flight": the agent has already taken the
+// transaction out of its table and released its lock) until the harness releases it.
+type gateAgent struct {
+	*stun.Agent
+	armed       atomic.Bool
+	inflight    chan struct{}
+	release     chan struct{}
+	agentClosed atomic.Bool
+}
+
+func (g *gateAgent) SetHandler(h stun.Handler) error {
+	return g.Agent.SetHandler(func(e stun.Event) {
+		if g.armed.CompareAndSwap(true, false) {
+			g.inflight <- struct{}{}
+			select {
+			case <-g.release:
+			case <-time.After(3 * time.Second):
+			}
+		}
+		h(e)
+	})
+}
+
+func (g *gateAgent) Close() error {
+	err := g.Agent.Close()
+	g.agentClosed.Store(true)
+	return err
+}
+
+func (g *gateAgent) arm() {
+	g.release = make(chan struct{})
+	select {
+	case <-g.inflight:
+	default:
+	}
+	g.armed.Store(true)
 }
 
 type cobs struct {
@@ -298,7 +341,8 @@ func execClientHistory(o *out, f [][]int) []int {
 		failInst: map[int]bool{}, clock: clock, h: h, unblock: make(chan struct{})}
 	coll := &manualCollector{}
 	var lastDatagram []byte
-	opts := []stun.ClientOption{stun.WithClock(clock), stun.WithCollector(coll), stun.WithRTO(time.Duration(cfg[0]))}
+	gate := &gateAgent{Agent: stun.NewAgent(nil), inflight: make(chan struct{}, 1), release: make(chan struct{})}
+	opts := []stun.ClientOption{stun.WithClock(clock), stun.WithCollector(coll), stun.WithRTO(time.Duration(cfg[0])), stun.WithAgent(gate)}
 	if cfg[1] == 0 {
 		opts = append(opts, stun.WithNoRetransmit)
 	}
@@ -464,13 +508,17 @@ func execClientHistory(o *out, f [][]int) []int {
 			now := agentBase.Add(time.Duration(op[1]))
 			clock.set(now)
 			if !coll.closed {
+				coll.wg.Add(1)
 				coll.f(now)
+				coll.wg.Done()
 			}
 		case 5:
 			clock.set(agentBase.Add(time.Duration(op[1])))
 		case 6:
 			c.SetRTO(time.Duration(op[1]))
 			h.curRTO = op[1]
+		case 11: // another user of the agent registers a transaction
+			_ = gate.Agent.Start(clientTID(op[1]), agentBase.Add(4000000000000000000))
 		case 7:
 			conn.mu.Lock()
 			conn.failInst = map[int]bool{}
@@ -478,11 +526,71 @@ func execClientHistory(o *out, f [][]int) []int {
 				conn.failInst[i] = true
 			}
 			conn.mu.Unlock()
-		case 8:
+		case 8, 9, 10:
+			// 9 / 10: Close while the events of a tick / of a datagram are in flight (held at the gate)
+			held := false
+			var releaseWhen func() bool
+			if op[0] == 9 {
+				now := agentBase.Add(time.Duration(op[1]))
+				clock.set(now)
+				if !closed {
+					gate.arm()
+					tickDone := make(chan struct{})
+					coll.wg.Add(1)
+					go func() { coll.f(now); coll.wg.Done(); close(tickDone) }()
+					select {
+					case <-gate.inflight:
+						held = true
+					case <-tickDone:
+						gate.armed.Store(false)
+					case <-time.After(5 * time.Second):
+						o.fail("tick-stuck", h.line)
+					}
+					// released once Close has set the flag and waits for the collector
+					releaseWhen = func() bool { return coll.closing.Load() }
+				}
+			}
+			if op[0] == 10 && !closed {
+				gate.arm()
+				lastDatagram = bytesOf(op[1:])
+				conn.rd <- lastDatagram
+				select {
+				case <-gate.inflight:
+					held = true
+				case <-conn.idle:
+					gate.armed.Store(false)
+					select {
+					case conn.idle <- struct{}{}:
+					default:
+					}
+				case <-time.After(5 * time.Second):
+					o.fail("reader-stuck", h.line)
+				}
+				// released once Close is past agent.Close and the connection's Close
+				releaseWhen = func() bool {
+					conn.mu.Lock()
+					nc := conn.closes
+					conn.mu.Unlock()
+					return gate.agentClosed.Load() && (cfg[2] == 0 || nc >= 1)
+				}
+			}
+			releaseGate := func() {
+				if !held {
+					return
+				}
+				for k := 0; k < 3000 && !releaseWhen(); k++ {
+					time.Sleep(time.Millisecond)
+				}
+				close(gate.release)
+				if op[0] == 10 { // wait until the in-flight callback has run and the reader is back in (or out of) Read
+					time.Sleep(500 * time.Microsecond)
+				}
+			}
 			var cerr error
 			if cfg[2] == 0 && !closed {
 				done := make(chan error, 1)
 				go func() { done <- c.Close() }()
+				releaseGate()
 				// under WithNoConnClose the connection's Read eventually returns (the property's precondition);
 				// until it does, Close must not return: the reader goroutine is still inside Read
 				returned := false
@@ -505,6 +613,7 @@ func execClientHistory(o *out, f [][]int) []int {
 			} else {
 				done := make(chan error, 1)
 				go func() { done <- c.Close() }()
+				releaseGate()
 				select {
 				case cerr = <-done:
 				case <-time.After(5 * time.Second):
@@ -684,9 +793,30 @@ func (g *clientGen) history(n int) []string {
 		case 14:
 			fs = append(fs, withBytes([]int{2}, stunMsg(r, 0, 20)))
 		default:
-			if r.chance(1, 3) {
+			switch r.intn(6) {
+			case 0:
 				fs = append(fs, fNums(8))
 				g.closed = true
+			case 1:
+				// Close racing the events of a collector tick (advance to around a deadline)
+				g.now += r.rangeIn(1, 9)*g.rto/2 + r.pick([]int{-1, 0, 1, 1})
+				fs = append(fs, fNums(9, g.now))
+				g.closed = true
+			case 2:
+				// Close racing a datagram already past agent.Process
+				id := 4242
+				if len(g.live) > 0 && r.chance(3, 4) {
+					id = g.live[r.intn(len(g.live))]
+				}
+				d := response(r, id, r.pick([]int{0, 4}))
+				if r.chance(1, 8) {
+					d = r.bytes(r.intn(30))
+				}
+				fs = append(fs, withBytes([]int{10}, d))
+				g.closed = true
+			case 3:
+				// another user of the agent holds an ID the client is going to use
+				fs = append(fs, fNums(11, r.pick([]int{1, 2, 3, 5, 9, 17, 257})))
 			}
 		}
 	}
